@@ -43,8 +43,8 @@ Get(f, k) == IF k \in DOMAIN f THEN f[k] ELSE ""      \* a missing key extracts 
 -----------------------------------------------------------------------------
 (* Expressions.  Uniform record shape so that sets of expressions are sets of one  *)
 (* record type:  op    "true" | "not" | "and" | "or" | "cfg" | "name" | "sub" |     *)
-(*                     "unit" | "unitre" | "in"                                     *)
-(*               kind  for "in": which kind of key ("cfg" | "name" | "sub")          *)
+(*                     "full" | "unit" | "unitre" | "in"                            *)
+(*               kind  for "in": which kind of key ("cfg" | "name" | "sub" | "full") *)
 (*               k     key (file-configuration key, or sub-name key without "/")     *)
 (*               v     literal value / unit                                         *)
 (*               vs    sequence of values: the fixed list of "in"; for "unitre" the  *)
@@ -58,6 +58,7 @@ Or(es)      == Node("or", "", "", "", <<>>, es)           \* OR, key:(a OR b)
 Cfg(k, v)   == Node("cfg", "", k, v, <<>>, <<>>)          \* k:v      file configuration
 Name(v)     == Node("name", "", "", v, <<>>, <<>>)        \* .name:v
 Sub(k, v)   == Node("sub", "", k, v, <<>>, <<>>)          \* /k:v     name configuration
+Full(v)     == Node("full", "", "", v, <<>>, <<>>)        \* .fullname:v   (only results that carry a `full` field: mode T)
 Unit(u)     == Node("unit", "", "", u, <<>>, <<>>)        \* .unit:u
 UnitRe(us)  == Node("unitre", "", "", "", us, <<>>)       \* .unit:/re/ with L(re) \cap UnitUniverse = Elems(us)
 In(kind, k, vs) == Node("in", kind, k, "", vs, <<>>)      \* fixed-list projection  key@(v1 v2 ...)
@@ -75,7 +76,8 @@ Filler == "widgets"      \* a unit that no term mentions and no regexp language 
 UnitUniverse == {"sec/op", "ns/op", "B/op", "B/s", "MB/s", Filler}
 
 (* Results: file configuration (key -> value), base name, name configuration        *)
-(* (sub key -> value), measurements [unit, orig, id].  `unit` is the base (tidied)    *)
+(* (sub key -> value), in recorded events also the full name, measurements             *)
+(* [unit, orig, id].  `unit` is the base (tidied)    *)
 (* unit, `orig` the written unit when the reader rescaled the value ("" otherwise),   *)
 (* `id` the measurement's original position, carried along so that "the same           *)
 (* measurements in their original order" can be stated.                               *)
@@ -84,6 +86,7 @@ Extract(r, kind, k) ==
   CASE kind = "cfg"  -> Get(r.cfg, k)
     [] kind = "name" -> r.name
     [] kind = "sub"  -> Get(r.sub, k)
+    [] kind = "full" -> r.full
 
 -----------------------------------------------------------------------------
 (* DECLARATIVE side *)
@@ -97,6 +100,7 @@ HoldsM(x, r, m) ==     \* does expression x hold for measurement record m of res
     [] x.op = "cfg"    -> Get(r.cfg, x.k) = x.v
     [] x.op = "name"   -> r.name = x.v
     [] x.op = "sub"    -> Get(r.sub, x.k) = x.v
+    [] x.op = "full"   -> r.full = x.v
     [] x.op = "unit"   -> m.unit = x.v \/ Written(m) = x.v            \* base OR written unit
     [] x.op = "unitre" -> m.unit \in Elems(x.vs) \/ Written(m) \in Elems(x.vs)
     [] x.op = "in"     -> Extract(r, x.kind, x.k) \in Elems(x.vs)
@@ -151,6 +155,7 @@ Eval(x, r, st) ==
     [] x.op = "cfg"  -> Ret(0, Get(r.cfg, x.k) = x.v, st)           \* q.Match(ext(res))
     [] x.op = "name" -> Ret(0, r.name = x.v, st)
     [] x.op = "sub"  -> Ret(0, Get(r.sub, x.k) = x.v, st)
+    [] x.op = "full" -> Ret(0, r.full = x.v, st)
     [] x.op = "in"   -> Ret(0, Extract(r, x.kind, x.k) \in Elems(x.vs), st)   \* projection.go:164-167
     [] x.op = "true" -> Ret(0, TRUE, st)                            \* FilterOp{OpAnd, nil}: the loop body never runs
     [] x.op = "not"  ->
@@ -295,6 +300,8 @@ ResultsA(d) == {MkRes("k1" :> c, "N1", "s1" :> "x", ks) : c \in {"v1", "v2"}, ks
 ResultsB(d) == {MkRes("k1" :> c, n, "s1" :> "x", ks) : c \in {"v1", "v2"}, n \in {"N1", "N2"}, ks \in MeasSeqs({KA, KB}, 1..(2 * W + 1))}
 \* word-boundary lengths only, alternating kinds
 ResultsC(d) == {MkRes("k1" :> c, "N1", "s1" :> "x", Alt(n, f)) : c \in {"v1", "v2"}, n \in {1, W, W + 1, 2 * W, 2 * W + 1}, f \in BOOLEAN}
+\* a full word, a word and one bit, two words and one bit
+ResultsD(d) == {MkRes("k1" :> c, "N1", "s1" :> "x", Alt(n, f)) : c \in {"v1", "v2"}, n \in {W, W + 1, 2 * W + 1}, f \in BOOLEAN}
 
 AtomsQ == {True, B1, U1, U2}
 AtomsT == {True, B1, B2, U1, U2, U3}
@@ -305,7 +312,7 @@ AtomsT == {True, B1, B2, U1, U2, U3}
 IsNot(x, S)    == \E y \in S : x = Not(y)
 IsOp(x, S, a)  == \/ \E t \in [1..a -> S] : x = And(t)
                   \/ \E t \in [1..a -> S] : x = Or(t)
-\* x ranges over all expressions over `atoms` of depth <= d+1 with binary AND/OR
+\* x ranges over ExprsUpTo(atoms, d + 1, {2})
 UpTo(x, atoms, d) == LET S == ExprsUpTo(atoms, d, {2}) IN x \in atoms \/ IsNot(x, S) \/ IsOp(x, S, 2)
 \* x ranges over OneDeep(atoms, d)
 IsOneDeep(x, atoms, d) ==
@@ -315,24 +322,23 @@ IsOneDeep(x, atoms, d) ==
      \/ \E y \in S, z \in L : x = And(<<y, z>>) \/ x = And(<<z, y>>) \/ x = Or(<<y, z>>) \/ x = Or(<<z, y>>)
 
 ExprIn(x, d) ==
-  \/ d = "tiny" /\ x \in ExprsUpTo(AtomsQ, 1, {2})
   \* quick: every expression of depth <= 2 with binary AND/OR over 4 atoms, plus unary OR
   \* (key:(a)) and ternary AND/OR over atoms and negated atoms
   \/ d \in {"quick", "neg"} /\ \/ UpTo(x, AtomsQ, 1)
                                \/ \E y \in AtomsQ : x = Or(<<y>>)
                                \/ IsOp(x, Lits(AtomsQ), 3)
-  \* thorough 1: depth <= 2, binary, six atoms (two independent whole-result terms, a regexp),
-  \* and ternary nodes over depth <= 1
-  \/ d = "thorough1" /\ \/ UpTo(x, AtomsT, 1)
-                        \/ IsOp(x, ExprsUpTo({B1, U1, U2}, 1, {2}), 3)
+  \* thorough 1: depth <= 2, binary, six atoms (two independent whole-result terms, a regexp)
+  \/ d = "thorough1" /\ UpTo(x, AtomsT, 1)
+  \* thorough 1b: ternary nodes over all expressions of depth <= 1 over three atoms
+  \/ d = "thorough1b" /\ IsOp(x, ExprsUpTo({B1, U1, U2}, 1, {2}), 3)
   \* thorough 2: depth 3 over {B1, U1, U2}, one operand of the top node of depth <= 1
   \/ d = "thorough2" /\ IsOneDeep(x, {B1, U1, U2}, 2)
   \* thorough 3: every binary expression of depth <= 3 over {B1, U1}
   \/ d = "thorough3" /\ UpTo(x, {B1, U1}, 2)
 
 ResultSet(d) ==
-  CASE d \in {"tiny", "neg"} -> ResultsC(d)
+  CASE d = "neg" -> ResultsC(d)
     [] d = "quick" -> ResultsA(d)
     [] d = "thorough1" -> ResultsB(d)
-    [] d \in {"thorough2", "thorough3"} -> ResultsC(d)
+    [] d \in {"thorough1b", "thorough2", "thorough3"} -> ResultsD(d)
 =============================================================================
